@@ -324,18 +324,134 @@ func c02BuildReceiverSmall(tier string) core.Source {
 	}}
 }
 
+// c02BuildReceiverLarge: token streams at the scale other senders produce
+// them: literal tokens of any positive length (tridge sends <= 32 KiB, the
+// format allows any), thousands of tokens, large blocks, references in any
+// order and multiplicity incl. the short last block first.
+func c02BuildReceiverLarge(tier string) core.Source {
+	drive.Quiet()
+	type shape struct {
+		name  string
+		basis []byte
+		b     int32
+		toks  func(head rp.SumHead) []rp.Token
+	}
+	small := genData(famHash, 2100, 21)
+	bigB := genData(famHash, 5*131072+1000, 22)
+	many := genData(famHash, 3000*8, 23)
+	chunks := func(data []byte, c int) []rp.Token {
+		var out []rp.Token
+		for off := 0; off < len(data); off += c {
+			out = append(out, rp.Lit(data[off:min(off+c, len(data))]))
+		}
+		return out
+	}
+	var shapes []shape
+	for _, n := range []int{32767, 32768, 262143, 262144, 262145, 1 << 20, 3<<20 + 1} {
+		n := n
+		shapes = append(shapes, shape{fmt.Sprintf("one literal token of %d bytes", n), small, 700, func(rp.SumHead) []rp.Token { return []rp.Token{rp.Lit(genData(famHash, n, uint32(n)))} }})
+	}
+	for _, c := range []int{1000, 4092, 32768, 262151} {
+		c := c
+		shapes = append(shapes, shape{fmt.Sprintf("600001 literal bytes in tokens of %d", c), small, 700, func(rp.SumHead) []rp.Token { return chunks(genData(famHash, 600001, 9), c) }})
+	}
+	shapes = append(shapes,
+		shape{"6 blocks of 131072 (+remainder 1000) referenced in reverse order, short block first", bigB, 131072, func(h rp.SumHead) []rp.Token {
+			var out []rp.Token
+			for k := h.Count - 1; k >= 0; k-- {
+				out = append(out, rp.Ref(k))
+			}
+			return out
+		}},
+		shape{"large blocks each referenced twice with 100000-byte literals in between", bigB, 131072, func(h rp.SumHead) []rp.Token {
+			var out []rp.Token
+			for k := int32(0); k < h.Count; k++ {
+				out = append(out, rp.Ref(k), rp.Lit(genData(famHash, 100000, uint32(k))), rp.Ref(h.Count-1-k))
+			}
+			return out
+		}},
+		shape{"3000 blocks of 8 bytes referenced in reverse order", many, 8, func(h rp.SumHead) []rp.Token {
+			var out []rp.Token
+			for k := h.Count - 1; k >= 0; k-- {
+				out = append(out, rp.Ref(k))
+			}
+			return out
+		}},
+		shape{"one 8-byte block referenced 3000 times", many, 8, func(h rp.SumHead) []rp.Token {
+			var out []rp.Token
+			for k := 0; k < 3000; k++ {
+				out = append(out, rp.Ref(1499))
+			}
+			return out
+		}},
+		shape{"3000 references alternating with 1-byte literals", many, 8, func(h rp.SumHead) []rp.Token {
+			var out []rp.Token
+			for k := int32(0); k < h.Count; k++ {
+				out = append(out, rp.Ref((k*7)%h.Count), rp.Lit([]byte{byte(k)}))
+			}
+			return out
+		}},
+		shape{"a 700-byte block repeated 2000 times (output 666 times the basis)", small, 700, func(h rp.SumHead) []rp.Token {
+			var out []rp.Token
+			for k := 0; k < 2000; k++ {
+				out = append(out, rp.Ref(1))
+			}
+			return out
+		}},
+		shape{"empty stream over a large basis (file truncated to nothing)", bigB, 131072, func(h rp.SumHead) []rp.Token { return nil }},
+	)
+	return core.FuncSource{N: len(shapes), F: func(i int) core.Result {
+		sh := shapes[i]
+		head := rp.LegalHead(len(sh.basis), sh.b, 16)
+		toks := sh.toks(head)
+		res := core.Result{Case: fmt.Sprintf("receiver-large: %s (B=%d, %d tokens)", sh.name, sh.b, len(toks))}
+		den, err := rp.Denote(toks, sh.basis, head)
+		if err != nil {
+			res.Inconcl = "harness: " + err.Error()
+			return res
+		}
+		dir := workDir()
+		defer cleanup(dir)
+		dest := filepath.Join(dir, "dst")
+		os.MkdirAll(dest, 0o755)
+		os.WriteFile(filepath.Join(dest, "f"), sh.basis, 0o644)
+		os.Chtimes(filepath.Join(dest, "f"), time.Unix(tm.Past-500, 0), time.Unix(tm.Past-500, 0))
+		list := &rp.FList{Entries: []rp.FEntry{{Name: []byte("f"), Len: int64(len(den)), Mtime: tm.Past, Mode: rp.SIFREG | 0o644}}}
+		script := &peer.SenderScript{List: list, Seed: c02Seed, Reply: func(req peer.Request) *peer.Reply {
+			return &peer.Reply{Idx: req.Idx, Head: head, Toks: toks, Trailer: rp.FileSum(c02Seed, den)}
+		}}
+		rerr, slog, serr, _ := peer.RunReceiver(dest, peer.RecvOpts{Times: true}, c02Seed, script)
+		cnt(&res, "transitions", int64(len(toks)))
+		cnt(&res, "states", 1)
+		cnt(&res, "traces_validated_against_impl", 1)
+		if rerr != nil || serr != nil {
+			res.Fail = core.Fail("valid_stream_rejected", fmt.Sprintf("receiver=%v scripted-sender=%v requests=%d", rerr, serr, len(slog.Requests)), "part", "receiver-large")
+			return res
+		}
+		got, err := os.ReadFile(filepath.Join(dest, "f"))
+		if err != nil || !bytes.Equal(got, den) {
+			res.Fail = core.Fail("receiver_wrote_other_bytes", fmt.Sprintf("%s: wrote %d bytes, want %d (first difference at %d, err %v)", sh.name, len(got), len(den), firstDiff(got, den), err), "part", "receiver-large")
+			return res
+		}
+		res.Nontrivial = true
+		res.Outcome = "ok/large"
+		return res
+	}}
+}
+
 func init() {
 	core.Register(&core.Prop{
 		ID:    "C02",
 		Level: "model_checking",
 		Rule: "sender-small: the real sender serves every target over a 2-3 letter alphabet (incl. bytes >= 0x80) up to length L against every basis of the same universe under every legal head with block length 1..k and strong length 16 (and 2): every alignment, repetition, duplicate block, remainder shape and natural weak-checksum collision at that scale; each response is checked for index/head echo, exact denotation over the basis and MD4(seed||target) trailer. " +
-			"receiver-small: the real receiver is fed every token stream of <=3 (4) tokens over {literal a, literal fe, literal a·fe, ref i for every i} for every basis of length <=4 and block length 1..3 and must write exactly the denotation. sender-large (thorough): structured layouts with block lengths 700..131072 built from all edit scripts of depth <=3. " +
+			"receiver-small: the real receiver is fed every token stream of <=3 (4) tokens over {literal a, literal fe, literal a·fe, ref i for every i} for every basis of length <=4 and block length 1..3 and must write exactly the denotation; receiver-large: 19 streams at the scale other senders produce (single literal tokens of 32767..3 MiB+1 bytes, 600001 bytes in tokens of 1000/4092/32768/262151, 131072-byte blocks in reverse order with the short block first, 3000 8-byte blocks reversed / one block 3000 times / alternating with 1-byte literals, a block repeated 2000 times, empty stream). sender-large (thorough): structured layouts with block lengths 700..131072 built from all edit scripts of depth <=3. " +
 			"states = (target,basis,layout) or (basis,stream) triples, transitions = requests answered / streams applied; non-trivial = case with at least one response mixing literals and references (sender) or with block references available (receiver)",
 		Assum: []string{"refproto's MD4 (x/crypto) and weak checksum definitions are correct (cross-checked against each other by every accepted session)"},
 		Parts: func(tier string) []core.Part {
 			return []core.Part{
 				{Name: "sender-small", Build: c02BuildSenderSmall},
 				{Name: "receiver-small", Build: c02BuildReceiverSmall},
+				{Name: "receiver-large", Build: c02BuildReceiverLarge},
 				{Name: "sender-large", Build: c02BuildSenderLarge},
 				{Name: "sender-forged", Build: c02BuildSenderForged},
 				{Name: "sender-collisions", Build: c02BuildSenderCollisions},
